@@ -115,9 +115,6 @@ Definition block_of (c : cue) (total : N) : option cuesheet :=
 Definition is_ascii_ws_free (s : list N) : Prop := Forall (fun c => is_ws c = false /\ c <> 10) s.
 
 Definition wf_index (i : cue_index) : Prop := ci_ss i < 60 /\ ci_ff i < 75 /\ ci_samples i <= U64_MAX.
-Definition wf_isrc (s : list N) : Prop :=
-  lenN s = 12 /\ forallb is_alpha (firstn 2 s) = true /\ forallb is_alnum (firstn 3 (skipn 2 s)) = true /\
-  forallb is_digit (skipn 5 s) = true.
 
 (* index points after the first of a track: later position, next number *)
 Fixpoint index_chain (prev_frames prev_num : N) (l : list cue_index) : Prop :=
